@@ -425,16 +425,14 @@ type arrayValueEnumerator struct {
 
 // MoveNext moves the enumerator to the next Value.
 func (e *arrayValueEnumerator) MoveNext() bool {
-	if e.i >= len(e.a.values)-1 {
-		return false
-	}
-	for {
+	// Skip holes; there may be holes at the end too.
+	for e.i < len(e.a.values)-1 {
 		e.i++
-		if e.i < len(e.a.values) && e.a.values[e.i] != nil {
-			break
+		if e.a.values[e.i] != nil {
+			return true
 		}
 	}
-	return e.i < len(e.a.values)
+	return false
 }
 
 // Current returns the enumerator's current Value.
